@@ -157,6 +157,16 @@ pub fn lw_pool(quick: bool) -> Vec<LwSpec> {
         env.fates = &[Fate::Deliver, Fate::Drop]; env.deltas = &[20];
         v.push(sp(&format!("bulk.one-packet-300-fragments.{}", name), &wide, &s, env, 1));
     }
+    // F12b: the same on a long fat link (round trip of 20 rounds, 8 MB/s), after a first such packet has opened the send rate: more than
+    // 256 fragments of the packet are in flight at once, so fragment k is still unacknowledged when the acknowledgement of k + 256 arrives
+    {
+        let cfg = LwCfg { latency: 10, bw: [8_000_000, 8_000_000], rx_alloc: [2_000_000, 2_000_000], ..wide.clone() };
+        let ops: Vec<Op> = vec![send(0, 0, 0, Reliable, 300 * FRAG), send(300, 0, 0, Reliable, 299 * FRAG + 77), send(301, 0, 1, Reliable, 9)];
+        let s = Arc::new(ScriptInfo::new(ops));
+        let mut env = env_live(300, 8);
+        env.fates = &[Fate::Deliver, Fate::Drop]; env.deltas = &[20];
+        v.push(sp("bulk.one-packet-300-fragments.long-fat-link", &cfg, &s, env, 1));
+    }
     // F10: one Reliable packet followed at once by a long run of small Unreliable ones (parent leads of 1..300: every datagram
     // header encoding and its boundaries 127/128, 255/256 occur), same channel and alternating channels, warm
     for (name, chans) in [("same-channel", 1usize), ("two-channels", 2)] {
